@@ -42,6 +42,11 @@ func (o *ObjectRangeRequest) Range(size int64) (*ObjectRange, error) {
 			// If no end is specified, range extends to end of the file.
 			length = size - start
 		} else {
+			// Clip the end to the last byte of the object before computing the
+			// length, otherwise "end - start + 1" can overflow for huge ends.
+			if end >= size {
+				end = size - 1
+			}
 			length = end - start + 1
 		}
 
